@@ -146,6 +146,13 @@ def build(job, scratch):
     rc, out, _ = run(["goto-instrument", "--add-library", "a.gb", "b.gb"], scratch, 300)
     if rc != 0:
         raise ToolError("goto-instrument --add-library failed:\n" + out[-1500:])
+    # Library code must not keep state between calls: any object with static storage duration defined in /repo starts
+    # with an ARBITRARY value (= arbitrary history of earlier calls).  The pinned tree defines none, so this changes
+    # nothing there; a cache introduced later is then exercised with stale contents.
+    rc, out, _ = run(["goto-instrument", "--nondet-static-matching", "^" + re.escape(REPO) + "/.*", "b.gb", "b2.gb"], scratch, 300)
+    if rc != 0:
+        raise ToolError("goto-instrument --nondet-static-matching failed:\n" + out[-1500:])
+    os.replace(os.path.join(scratch, "b2.gb"), os.path.join(scratch, "b.gb"))
     loops = show_loops("b.gb", scratch)
     # which loops are under the responsibility of this job: those in functions of /repo and of listed files
     unwindset = []
